@@ -399,6 +399,22 @@ theorem query_fails_after_transient_init_error :
     (query cfgRepaired (store cfgRepaired n blkE).1 fB 0 1 none 5 0).2 = .ok [⟨1, 0, 0, ⟨11, [7]⟩⟩] Token.none := by
   decide
 
+/-- Negation witness (second open finding): a pruning node (`W = 3`, 13 blocks, floor 12 in the
+head's window, so no persisted window is left and the headers below 2 are gone) is stopped without a
+snapshot and started again without `--prune-mode`: the initialiser that does not know the floor walks
+back to block 0, misses its header and fails; the retained matching event of block 12 cannot be
+queried. Started with the floor-aware initialiser the same database answers exactly. -/
+theorem query_fails_on_pruned_database_without_prune_mode :
+    let ops : List Op := List.replicate 12 (.store blkE) ++ [.store blkB, .prune 12]
+    let n := run cfgRepaired Node.init ops
+    storesOKb cfgRepaired Node.init ops = true ∧
+    naive fB n.chain 12 12 = [⟨12, 0, 0, ⟨11, [7]⟩⟩] ∧
+    (restartCore cfgRepaired n).2 = some .notfound ∧
+    (query cfgRepaired (restartCore cfgRepaired n).1 fB 12 12 none 5 0).2 = .err .notfound ∧
+    (restart cfgRepaired n).2 = none ∧
+    (query cfgRepaired (restart cfgRepaired n).1 fB 12 12 none 5 0).2 = .ok [⟨12, 0, 0, ⟨11, [7]⟩⟩] Token.none := by
+  decide
+
 /-! ## Non-vacuity -/
 
 -- reorg across a window boundary after the cache was warmed: exact
